@@ -270,40 +270,61 @@ Lemma armed_raise_cons t s :
                          end.
 Proof. reflexivity. Qed.
 
+Lemma no_block_tail t s : no_block (t :: s) = true -> no_block s = true.
+Proof. unfold no_block. simpl. intros H. apply andb_prop in H. tauto. Qed.
+
 Lemma step_armed σ l σ' :
-  cstate σ -> armed σ -> step σ l σ' -> armed σ' /\ att1 l + cost σ' = cost σ.
+  cstate σ -> armed σ -> step σ l σ' ->
+  armed σ' /\
+  (no_block (stk σ) = true -> no_block (stk σ') = true /\ att1 l + cost σ' = cost σ).
 Proof.
   intros [Hc HI] HA H. pose proof HI as (Ha & Hs & Hp).
   destruct σ as [s m c a g pl]. unfold armed, cost in *. simpl in *. subst c a.
   inversion H; subst; clear H; unfold with_stk, att1; simpl in *; subst; simpl.
   - simpl in Hs. apply andb_prop in Hs as [Hpt _]. subst p. discriminate.
-  - destruct HA as [[_ HA]|[HA _]]; [|discriminate]. simpl in HA. split; [right; auto|reflexivity].
+  - destruct HA as [[_ HA]|[HA _]]; [|discriminate]. simpl in HA.
+    split; [right; auto|]. intros Hnb. split; [exact Hnb|reflexivity].
   - destruct HA as [[_ HA]|[HA _]]; [|discriminate].
     match goal with Hd : _ \/ _ |- _ => destruct Hd as [->|[(h & r & ->)|(w & p & ->)]] end;
-      simpl in HA; (split; [left; split; [reflexivity|exact HA]|reflexivity]).
+      simpl in HA; (split; [left; split; [reflexivity|exact HA]|]);
+      intros Hnb; (split; [exact (no_block_tail _ _ Hnb)|reflexivity]).
   - destruct HA as [[_ HA]|[HA _]]; discriminate.
   - destruct HA as [[_ HA]|[HA _]]; discriminate.
   - destruct HA as [[_ HA]|[HA _]]; discriminate.
-  - destruct HA as [[_ HA]|[HA _]]; [|discriminate]. simpl in HA. split; [left; auto|reflexivity].
-  - destruct HA as [[_ HA]|[HA _]]; [|discriminate]. simpl in HA. split; [left; auto|reflexivity].
+  - destruct HA as [[_ HA]|[HA _]]; [|discriminate]. simpl in HA. apply andb_prop in HA as [HA1 HA2].
+    split; [right; split; [reflexivity|]|].
+    + exact HA2.
+    + unfold no_block. simpl. discriminate.
+  - destruct HA as [[_ HA]|[HA _]]; [|discriminate]. simpl in HA. apply andb_prop in HA as [HA1 HA2].
+    split; [left; auto|]. unfold no_block. simpl. discriminate.
   - destruct HA as [[HA _]|[HA HB]]; [discriminate|]. inversion HA; subst.
     rewrite armed_raise_cons in HB.
-    match goal with E : role_of _ = _ |- _ => rewrite E in HB; rewrite E end. split; [right; auto|reflexivity].
+    match goal with E : role_of _ = _ |- _ => rewrite E in HB; rewrite E end.
+    split; [right; auto|]. intros Hnb. split; [exact (no_block_tail _ _ Hnb)|reflexivity].
   - destruct HA as [[HA _]|[HA HB]]; [discriminate|]. inversion HA; subst.
     rewrite armed_raise_cons in HB.
-    match goal with E : role_of _ = _ |- _ => rewrite E in HB; rewrite E end. split; [left; auto|reflexivity].
+    match goal with E : role_of _ = _ |- _ => rewrite E in HB; rewrite E end.
+    split; [left; auto|]. intros Hnb. split; [exact (no_block_tail _ _ Hnb)|reflexivity].
   - destruct HA as [[HA _]|[HA HB]]; [discriminate|]. inversion HA; subst.
-    destruct h; [|discriminate]. simpl. split; [left; auto|reflexivity].
+    destruct h; [|discriminate]. simpl. split; [left; auto|].
+    intros Hnb. split; [|reflexivity]. unfold no_block in *. simpl in *. exact Hnb.
   - discriminate.
 Qed.
 
-Lemma run_armed σ tr σ' :
-  cstate σ -> armed σ -> run σ tr σ' -> armed σ' /\ attempts tr + cost σ' = cost σ.
+Lemma run_armed σ tr σ' : cstate σ -> armed σ -> run σ tr σ' -> armed σ'.
 Proof.
-  intros HC HA H. induction H as [σ|σ l σ1 tr σ2 Hst Hr IH]; [unfold attempts; simpl; auto|].
+  intros HC HA H. induction H as [σ|σ l σ1 tr σ2 Hst Hr IH]; [auto|].
   destruct (step_cstate _ _ _ HC Hst) as [HC1 _].
-  destruct (step_armed _ _ _ HC HA Hst) as [HA1 Hc1]. destruct (IH HC1 HA1) as [HA2 Hc2].
-  split; [exact HA2|]. rewrite attempts_cons. lia.
+  destruct (step_armed _ _ _ HC HA Hst) as [HA1 _]. auto.
+Qed.
+
+Lemma run_armed_cost σ tr σ' :
+  cstate σ -> armed σ -> no_block (stk σ) = true -> run σ tr σ' -> attempts tr + cost σ' = cost σ.
+Proof.
+  intros HC HA Hnb H. induction H as [σ|σ l σ1 tr σ2 Hst Hr IH]; [unfold attempts; simpl; auto|].
+  destruct (step_cstate _ _ _ HC Hst) as [HC1 _].
+  destruct (step_armed _ _ _ HC HA Hst) as [HA1 Hc1]. destruct (Hc1 Hnb) as [Hnb1 Hc].
+  pose proof (IH HC1 HA1 Hnb1). rewrite attempts_cons. lia.
 Qed.
 
 Lemma armed_final σ : armed σ -> final σ -> md σ = Raising ECtx.
@@ -344,7 +365,7 @@ Proof.
       * intros H; inversion H; subst. eapply S_goret; eauto.
       * intros H; inversion H; subst. rewrite <- Es. eapply S_goraise; eauto.
     + destruct (p && cancelled σ) eqn:E; intros H; inversion H; subst; clear H.
-      * apply andb_prop in E as [-> Hc]. eapply S_unblock; eauto.
+      * apply andb_prop in E as [-> Hc]. rewrite <- Es. eapply S_unblock; eauto.
       * eapply S_recv; eauto.
     + intros H; inversion H; subst. eapply S_ret; eauto.
     + intros H; inversion H; subst. eapply S_ret; eauto 6.
@@ -723,12 +744,14 @@ Proof.
 Qed.
 
 Lemma stops_exactly_lemma :
-  forall σ tr σ', cstate σ -> md σ = Run -> armed_run (stk σ) = true -> run σ tr σ' -> final σ' ->
+  forall σ tr σ', cstate σ -> md σ = Run -> armed_run (stk σ) = true -> no_block (stk σ) = true ->
+    run σ tr σ' -> final σ' ->
     attempts tr = cost_run (stk σ) /\ md σ' = Raising ECtx.
 Proof.
-  intros σ tr σ' HC Hm Ha Hr Hf.
+  intros σ tr σ' HC Hm Ha Hnb Hr Hf.
   assert (HA : armed σ) by (left; auto).
-  destruct (run_armed _ _ _ HC HA Hr) as [HA' Hc].
+  pose proof (run_armed _ _ _ HC HA Hr) as HA'.
+  pose proof (run_armed_cost _ _ _ HC HA Hnb Hr) as Hc.
   rewrite (cost_final _ Hf) in Hc. unfold cost in Hc at 1. rewrite Hm in Hc.
   split; [lia|]. apply armed_final; auto.
 Qed.
@@ -739,7 +762,7 @@ Lemma reason_carried_lemma :
 Proof.
   intros σ tr σ' HC Hm Ha Hr.
   assert (HA : armed σ) by (left; auto).
-  destruct (run_armed _ _ _ HC HA Hr) as [HA' _]. split.
+  pose proof (run_armed _ _ _ HC HA Hr) as HA'. split.
   - intros e He. destruct HA' as [[H _]|[H _]]; congruence.
   - apply armed_final; auto.
 Qed.
@@ -823,11 +846,12 @@ Qed.
 
 Lemma blocked_operation_released_lemma :
   forall σ p s, cstate σ -> md σ = Run -> stk σ = TGoBlock p :: s ->
-    step σ LUnblock (with_stk σ s Run) /\ cstate (with_stk σ s Run).
+    step σ LUnblock (with_stk σ (stk σ) (Raising ECtx)) /\
+    cstate (with_stk σ (stk σ) (Raising ECtx)).
 Proof.
   intros σ p s HC Hm Hs. pose proof HC as [Hc (Ha & Hp & Hpl)].
   rewrite Hs in Hp. simpl in Hp. apply andb_prop in Hp as [Hpp Hps]. subst p.
-  assert (Hst : step σ LUnblock (with_stk σ s Run)) by (eapply S_unblock; eauto).
+  assert (Hst : step σ LUnblock (with_stk σ (stk σ) (Raising ECtx))) by (eapply S_unblock; eauto).
   split; [exact Hst|]. exact (proj1 (step_cstate _ _ _ HC Hst)).
 Qed.
 
